@@ -290,6 +290,36 @@ func extractC18() {
 			}
 		}
 	}
+	// what is handed to the wrapped connection inside the bucket closures, and by how much the buffer advances
+	var chunk []string
+	if fd := funcDecl(cf, "Conn", "Write"); fd != nil {
+		for _, st := range fd.Body.List {
+			fs, ok := st.(*ast.ForStmt)
+			if !ok {
+				continue
+			}
+			ast.Inspect(fs.Body, func(x ast.Node) bool {
+				switch n := x.(type) {
+				case *ast.CallExpr:
+					if lastSelStr(src(n.Fun)) == "Write" && len(n.Args) == 1 {
+						if se, ok := n.Args[0].(*ast.SliceExpr); ok && se.Low == nil && se.High != nil {
+							chunk = append(chunk, "write "+bare(src(se.X))+"[:"+bare(src(se.High))+"]")
+						} else {
+							chunk = append(chunk, "write "+bare(src(n.Args[0])))
+						}
+					}
+				case *ast.AssignStmt:
+					if len(n.Lhs) == 1 && len(n.Rhs) == 1 {
+						if se, ok := n.Rhs[0].(*ast.SliceExpr); ok && se.High == nil && se.Low != nil && bare(src(n.Lhs[0])) == bare(src(se.X)) {
+							chunk = append(chunk, "advance "+bare(src(se.X))+"["+bare(src(se.Low))+":]")
+						}
+					}
+				}
+				return true
+			})
+		}
+	}
+	g.def("writeChunk", "List String", leanLines(chunk))
 	g.def("writeRound", "List String", leanLines(round))
 	g.def("writeAction", "List String", leanLines(action))
 
